@@ -303,11 +303,81 @@ def gen_consts():
     return fails
 
 
-def regenerate():
+def gen_registry():
+    """`Gen/Registry.lean` (Route A by introspection of the IMPORTED package): for every public method the wrapper's closure
+    cells (`sort_keys`, `reshape_keys`, `reshape_baseline`, `skip_sorting`) and the per-point keys of the parameter dictionary
+    observed on one probe call (arrays with exactly the data's shape; in 2-D also flat arrays of the data's size, which the
+    wrapper should have reshaped).  The table obligations over it live in Props/C01 and Props/C02."""
+    import warnings
+    import numpy as np
+    from . import methods
+    fails, rows = [], []
+    try:
+        from pybaselines import Baseline, Baseline2D
+        rng = np.random.default_rng(12345)
+        for two_d in (False, True):
+            reg = methods.registry(two_d)
+            for name in sorted(reg):
+                e = reg[name]
+                cells = e['cells']
+                perpoint, flat, probed = [], [], True
+                try:
+                    with warnings.catch_warnings():
+                        warnings.simplefilter('ignore')
+                        kw = methods.filter_kwargs(e, methods.call_kwargs(name, two_d))
+                        if name == 'custom_bc':
+                            kw['sampling'] = 2      # so that the fitted subset is not mistaken for a per-point array
+                        if two_d:
+                            x, z, y = methods.make_data2d(rng, 11, 13)
+                            fit = Baseline2D(x, z)
+                        else:
+                            x, y = methods.make_data(rng, 37)
+                            fit = Baseline(x)
+                        if name == 'collab_pls':
+                            y = np.stack([y, 1.1 * y])
+                        _, params = getattr(fit, name)(y, **kw)
+                    shape = y.shape[1:] if name == 'collab_pls' else y.shape
+                    size = int(np.prod(shape))
+                    for k, v in params.items():
+                        if isinstance(v, np.ndarray) and v.shape == tuple(shape):
+                            perpoint.append(k)
+                        elif two_d and isinstance(v, np.ndarray) and v.ndim == 1 and v.size == size:
+                            flat.append(k)
+                except Exception as ex:     # a probe that raises is recorded, not guessed
+                    probed = False
+                    fails.append(f'Registry: probe call of {"2d." if two_d else ""}{name} raised {type(ex).__name__}')
+                rows.append((two_d, name, tuple(cells.get('sort_keys', ()) or ()), tuple(cells.get('reshape_keys', ()) or ()),
+                             bool(cells.get('reshape_baseline', False)), bool(cells.get('skip_sorting', False)),
+                             tuple(sorted(perpoint)), tuple(sorted(flat)), probed))
+    except Exception as ex:
+        fails.append(f'Registry: introspection failed ({type(ex).__name__}: {ex})')
+
+    def ls(t):
+        return '[' + ', '.join(f'"{k}"' for k in t) + ']'
+
+    def b(v):
+        return 'true' if v else 'false'
+    lines = ['/-! GENERATED on every run of C01 / C02 by harness/pbv/translate.py from the imported package — do not edit. -/',
+             'namespace PbVerif.Gen', '',
+             'structure MethodRow where', '  twoD : Bool', '  name : String', '  sortKeys : List String', '  reshapeKeys : List String',
+             '  reshapeBaseline : Bool', '  skipSorting : Bool', '  perPoint : List String', '  flatKeys : List String', '  probed : Bool',
+             'deriving Repr', '', 'def registry : List MethodRow := [']
+    lines.append(',\n'.join(f'  ⟨{b(r[0])}, "{r[1]}", {ls(r[2])}, {ls(r[3])}, {b(r[4])}, {b(r[5])}, {ls(r[6])}, {ls(r[7])}, {b(r[8])}⟩'
+                            for r in rows))
+    lines += [']', '', f'def registryTranslated : Bool := {b(not fails and bool(rows))}', '', 'end PbVerif.Gen', '']
+    _write('Registry.lean', '\n'.join(lines))
+    return fails, rows
+
+
+def regenerate(prop=None):
     fails = []
     fails += gen_consts()
     f, _ = gen_diags()
     fails += f
     f, _ = gen_inplace()
     fails += f
+    # the registry needs one probe call per method: regenerated by the checks whose theorems read it (and by --setup)
+    if prop in (None, 'C01', 'C02') or not os.path.exists(os.path.join(common.LEAN, 'PbVerif', 'Gen', 'Registry.lean')):
+        f, _ = gen_registry()
+        fails += f
     return fails
